@@ -119,7 +119,9 @@ int cp_pokdl_ver(const bn_t c, const bn_t r, const ec_t y) {
 		md_map(h, bin, sizeof(bin));
 		bn_read_bin(v, h, RLC_MD_LEN);
 		bn_mod(v, v, n);
-		if (bn_cmp(v, c) == RLC_EQ) {
+		/* The response must be reduced modulo the group order as well. */
+		if (bn_cmp(v, c) == RLC_EQ && bn_sign(r) == RLC_POS &&
+				bn_cmp(r, n) == RLC_LT) {
 			result = 1;
 		}
 	}
@@ -249,6 +251,13 @@ int cp_pokor_ver(const bn_t c[2], const bn_t r[2], const ec_t y[2]) {
 
 		if (bn_is_zero(z)) {
 			result = 1;
+		}
+		/* Challenges and responses must be reduced modulo the group order. */
+		for (int i = 0; i < 2; i++) {
+			if (bn_sign(c[i]) == RLC_NEG || bn_cmp(c[i], n) != RLC_LT ||
+					bn_sign(r[i]) == RLC_NEG || bn_cmp(r[i], n) != RLC_LT) {
+				result = 0;
+			}
 		}
 	}
 	RLC_CATCH_ANY {
